@@ -27,6 +27,12 @@ partial def decGo (j : Json) : GoVal :=
     .struct ((jarr j "fields").map fun f =>
       let v := decGo (jget f "v")
       (jstr f "name", true, if jbool f "iface" then GoVal.iface (match v with | .nil => none | v => some v) else v)) []
+  | "twin" =>
+    -- the harness's two function-local types called Product
+    let t := jstr j "title"
+    let n : Rat := match jget j "n" with | .num x => (x.mantissa : Rat) / ((10 ^ x.exponent : Nat) : Rat) | _ => 0
+    if jstr j "which" == "A" then .struct [("Title", true, .str t), ("Price", true, .num n)] []
+    else .struct [("Sku", true, .str ("sku-" ++ t)), ("Title", true, .str t), ("Stock", true, .num n), ("Extra", true, .str "x")] []
   | "leafy" =>
     -- the harness's compiled type `Leafy` (fields, one unexported; value-receiver methods Title/Double/First)
     let name := jstr j "name"
@@ -51,13 +57,41 @@ def pathExpr (path : List Json) : JS.Expr :=
     | _, _, _, .str m => JS.Expr.call (.dot e m) []
     | _, _, _, _ => e) (JS.Expr.ident "x")
 
+/-- Template.execute on a struct / map page data: every exported field (map key) `F` defines `$F` and `$lowerFirst F`, in field
+    (sorted key) order -/
+def rootGlobals (g : GoVal) (h : Heap) : Heap × List (String × Val) :=
+  let rec strip : GoVal → GoVal
+    | .ptr (some v) | .iface (some v) => strip v
+    | v => v
+  let entries : List (String × GoVal) := match strip g with
+    | .struct fields _ => (fields.filter (·.2.1)).map fun f => (f.1, f.2.2)
+    | .map es => es
+    | _ => []
+  entries.foldl (fun (acc : Heap × List (String × Val)) (kv : String × GoVal) =>
+    let (h', v) := convertGo kv.2 acc.1
+    (h', acc.2 ++ [("$" ++ kv.1, v), ("$" ++ lowerFirst kv.1, v)])) (h, [])
+
+def rootExpr (path : List Json) : JS.Expr :=
+  match path with
+  | first :: rest =>
+    rest.foldl (fun e st =>
+      match jget st "f", jget st "k", jget st "i", jget st "m" with
+      | .str f, _, _, _ => JS.Expr.dot e f
+      | _, .str k, _, _ => JS.Expr.idx e (.str k)
+      | _, _, .num n, _ => JS.Expr.idx e (.num (n.mantissa : Rat) true)
+      | _, _, _, .str m => JS.Expr.call (.dot e m) []
+      | _, _, _, _ => e) (JS.Expr.ident (jstr first "f"))
+  | [] => .null
+
 def runGoPath (c : Json) : Json × Json :=
   let g := decGo (jget c "val")
+  let isRoot := jbool c "root"
   let (h, v) := convertGo g Heap.empty
   let (h, gl) := h.allocMap { items := [], order := [] }
-  let globals : List (String × Val) := [("$x", v), ("$global", gl)]
+  let (h, rootVars) := if isRoot then rootGlobals g h else (h, [])
+  let globals : List (String × Val) := (if isRoot then rootVars else [("$x", v)]) ++ [("$global", gl)]
   let st : St := { vars := [("$", .nil)] ++ globals, globals := globals, heap := h, out := "", depth := 0 }
-  let doc : List Node := [.text "[", .codeBuf (pathExpr (jarr c "path")) true true, .text "]"]
+  let doc : List Node := [.text "[", .codeBuf (if isRoot then rootExpr (jarr c "path") else pathExpr (jarr c "path")) true true, .text "]"]
   let env : CEnv := { funcs := engineFuncs, parserFuncs := engineFuncs ++ builtinNames }
   match compileDoc env doc with
   | .error e => (cerrJson e, .null)
